@@ -112,6 +112,8 @@ class SeriesOps:
             if hasattr(s, "renamed_from"):
                 r.renamed_from = s.renamed_from
             return r
+        if name == "to_dict" and not pos and not kw and len(s.ctx) == 3 and not s.positional:
+            return ("serdict", s.term, s.ctx)          # {index label: value}: a lookup d[k] is the value of the row labelled k (s.loc[k])
         if name in ("to_numpy", "to_list", "tolist"):
             if name == "to_numpy":
                 return Ser(s.term, s.ctx, s.frame, s.name, positional=True)
